@@ -22,7 +22,8 @@ def main():
         d = res.to_dict() if isinstance(res, core.ChunkResult) else res
     except BaseException as e:
         import traceback
-        d = {'harness_error': ''.join(traceback.format_exception(type(e), e, e.__traceback__)), 'chunk': chunk}
+        d = core._implementation_raised(mod, chunk, e) or \
+            {'harness_error': ''.join(traceback.format_exception(type(e), e, e.__traceback__)), 'chunk': chunk}
     json.dump(d, real_stdout)
     real_stdout.flush()
 
@@ -36,7 +37,19 @@ def spawn(modname, chunk, optimize):
                        timeout=3600)
     if p.returncode != 0 or not p.stdout.strip():
         return {'harness_error': 'sub-interpreter failed rc=%s\n%s' % (p.returncode, p.stderr[-2000:]), 'chunk': chunk}
-    return json.loads(p.stdout)
+    d = json.loads(p.stdout)
+    if optimize:
+        for v in d.get('violations', []):
+            if isinstance(v.get('case'), dict):
+                v['case']['_python_O'] = True      # the replay has to run under python -O as well
+    return d
+
+
+def route(modname, chunk):
+    """Checks call this first in run_chunk: a chunk marked {'optimize': True} is executed in a `python -O` interpreter."""
+    if chunk.get('optimize') and not sys.flags.optimize:
+        return spawn(modname, chunk, True)
+    return None
 
 
 if __name__ == '__main__':
